@@ -200,6 +200,35 @@ pub fn run(p: &Parser, src: &str, globals: &liquid::Object) -> R<String> {
     }
 }
 
+/// A writer that accepts at most `chunk` bytes per call (short writes are legal for io::Write).
+pub struct ChunkWriter {
+    pub chunk: usize,
+    pub bytes: Vec<u8>,
+}
+
+impl std::io::Write for ChunkWriter {
+    fn write(&mut self, buf: &[u8]) -> std::io::Result<usize> {
+        let n = buf.len().min(self.chunk);
+        self.bytes.extend_from_slice(&buf[..n]);
+        Ok(n)
+    }
+    fn flush(&mut self) -> std::io::Result<()> {
+        Ok(())
+    }
+}
+
+/// parse + streaming render into a writer that takes `chunk` bytes at a time
+pub fn run_streamed(p: &Parser, src: &str, globals: &liquid::Object, chunk: usize) -> R<String> {
+    match parse(p, src)? {
+        Err(e) => Ok(Err(format!("parse: {e}"))),
+        Ok(t) => guard(|| {
+            let mut w = ChunkWriter { chunk, bytes: Vec::new() };
+            t.render_to(&mut w, globals).map_err(|e| format!("render: {e}"))?;
+            String::from_utf8(w.bytes).map_err(|_| "streamed bytes are not UTF-8".to_string())
+        }),
+    }
+}
+
 pub fn run_rv(p: &Parser, src: &str, data: &RV) -> R<String> {
     run(p, src, &data.to_object())
 }
